@@ -152,6 +152,7 @@ func C10(c *core.Ctx) {
 		if iv == "daily" && e-s > 120 {
 			e = s + rng.Intn(120)
 		}
+		d.Perf = [][]string{nil, nil, nil, {}, {"CHF"}, {"USD", "CHF"}}[rng.Intn(6)] // an accrued transaction may carry a performance annotation too
 		d.Acc = kj.Accrual{On: true, Iv: iv, S: s, E: e, A: []string{"Assets:Accrual", "Liabilities:Accrued"}[rng.Intn(2)]}
 		acs[i] = accCase{QS: qs, Dir: d}
 	}
